@@ -966,6 +966,53 @@ def gen_c14(seed, count):
 PYGEN['py_c14'] = gen_c14
 
 
+def gen_c16f(seed, count):
+    """a future dropped inside flush(): the packet is written whole, its flush is still owed (state F).  Then the connection
+    is driven on - drive(), poll() with something to read, another request - which must flush it first."""
+    out = []
+    for idx in range(count):
+        r = random.Random((seed << 20) ^ idx ^ 0xC16F)
+        c = Case(rx=64, tx=256, ka=0)
+        c.connect(connack(0, 0, []))
+        script = [(0, 1000)] * 5
+        kind = r.choice(['pub1', 'pub2', 'sub', 'unsub', 'ack'])
+        pre = r.randint(0, 2)
+        for j in range(pre):
+            c.publish(b'pre', bytes([48 + j]), qos=1)
+            script += [(0, 1000), (0, 1000)]
+        if kind == 'pub1':
+            c.publish(b'a', b'payload', qos=1)
+        elif kind == 'pub2':
+            c.publish(b'a', b'payload', qos=2)
+        elif kind == 'sub':
+            c.subscribe(((b'f/a', 1),))
+        elif kind == 'unsub':
+            c.unsubscribe((b'f/a',))
+        else:
+            c.feed(publish(1, 9, b't', b'in'))
+            c.poll()
+            script += [(0, 1000)] * 4          # the four reads of the inbound PUBLISH (header, length, body in pieces)
+            c.drive()
+        script += [(0, r.choice([1000, 1000, 3])) for _ in range(r.choice([1, 1, 4]))] if False else [(0, 1000)]
+        script += [(3, 0)]                      # the flush is dropped
+        follow = r.choice(['drive', 'drive', 'feedpoll', 'publish'])
+        if follow == 'drive':
+            c.drive()
+        elif follow == 'feedpoll':
+            c.feed(publish(0, 0, b'q0', b'm'))
+            c.poll()
+        else:
+            c.publish(b'next', b'n', qos=r.choice([0, 1]))
+        c.drive()
+        c.broker(1)
+        c.ev(*script)
+        out.append(c.line())
+    return out
+
+
+PYGEN['py_c16f'] = gen_c16f
+
+
 def gen_c06(seed, count):
     """flow control against a small Receive Maximum: the window is filled with QoS 1 / QoS 2 publishes, subscribes and
     unsubscribes are acknowledged in between (their acknowledgements must not open the window), publish
